@@ -1,4 +1,28 @@
 // harness TU for SO3 (double)
 #define HX_HAS_ROTATION 1
 #include "generic.h"
-namespace hx { void run_SO3(const Req& r, Resp& R) { run<manif::SO3d>(r, R); } }
+namespace hx {
+template <> struct Extra<manif::SO3d> {
+  static bool run(const Req& r, Resp& R) {
+    const auto& a = r.a;
+    using G = manif::SO3d;
+    if (r.op == "ctor_rpy" && a.size() == 3) { G g(a[0], a[1], a[2]); pushM(R.out, g.coeffs()); return true; }
+    if (r.op == "ctor_aa" && a.size() == 4) {
+      G g(Eigen::AngleAxisd(a[0], Eigen::Vector3d(a[1], a[2], a[3]))); pushM(R.out, g.coeffs()); return true;
+    }
+    if (r.op == "set_quat" && a.size() == 8) {
+      Operand<G, 'o'> x(a.data());
+      x.mut().quat(Eigen::Quaterniond(a[7], a[4], a[5], a[6]));
+      pushM(R.out, x.get().coeffs()); return true;
+    }
+    if (r.op == "accessors" && a.size() == 4) {
+      Operand<G, 'o'> x(a.data());
+      R.out.push_back(x.get().x()); R.out.push_back(x.get().y()); R.out.push_back(x.get().z()); R.out.push_back(x.get().w());
+      pushM(R.out, x.get().quat().coeffs());
+      return true;
+    }
+    return false;
+  }
+};
+void run_SO3(const Req& r, Resp& R) { run<manif::SO3d>(r, R); }
+}
